@@ -82,6 +82,14 @@ pub fn run(ctx: &Ctx, model: &mut Model, rep: &mut Report) {
         }
         return;
     }
+    for f in crate::known::open(ctx, "C07") {
+        let (k, t) = (f.witness["key"].as_str().unwrap_or("a").to_string(), f.witness["text"].as_str().unwrap_or("").to_string());
+        rep.evaluations += 1;
+        match check_doc(&k, &t) {
+            Some(what) => rep.known_findings.push(json!({"id": f.id, "what": format!("{} — witness still fails: {}", f.what, cut(&what))})),
+            None => rep.resolved_findings.push(json!({"id": f.id, "what": f.what})),
+        }
+    }
     // (a) exhaustive level sequences
     let maxlen = if ctx.thorough { 6 } else { 4 };
     let mut seqs: Vec<Vec<u8>> = vec![vec![]];
